@@ -114,32 +114,32 @@ def units(tier):
             u.frame = True
             U.append(u)
 
-    # ---- ensure_equal_dims
-    for ndim, dim in ((1, None), (2, None), (2, 0), (2, 1), (3, 0), (3, 1)):
-        def mke(c, ndim=ndim, dim=dim):
-            sa = [z3.Int('a%d' % d) for d in range(ndim)]
-            sb = [z3.Int('b%d' % d) for d in range(ndim)]
-            for v in sa + sb:
-                c.assume(v >= 1)
-            fa = z3.Function('A', *([I] * ndim + [R]))
-            fb = z3.Function('B', *([I] * ndim + [R]))
-            A = SArr(tuple(sa), lambda *ix: fa(*ix), 'f')
-            Bq = SArr(tuple(sb), lambda *ix: fb(*ix), 'f')
-            c.ghost['shapes'] = (sa, sb)
-            return ((A, Bq), ('a', 'b'), 'caller'), dict(dim=dim)
+    # ---- ensure_equal_dims (two and three arrays: the extents of EVERY later array are compared with those of the first)
+    for nargs, ndim, dim in ((2, 1, None), (2, 2, None), (2, 2, 0), (2, 2, 1), (2, 3, 0), (2, 3, 1), (3, 1, None), (3, 2, 0), (3, 2, None), (3, 3, 1)):
+        def mke(c, nargs=nargs, ndim=ndim, dim=dim):
+            shapes, arrs = [], []
+            for q in range(nargs):
+                sq = [z3.Int('%s%d' % ('abc'[q], d)) for d in range(ndim)]
+                for v in sq:
+                    c.assume(v >= 1)
+                fq = z3.Function('ABC'[q], *([I] * ndim + [R]))
+                arrs.append(SArr(tuple(sq), (lambda f: lambda *ix: f(*ix))(fq), 'f'))
+                shapes.append(sq)
+            c.ghost['shapes'] = shapes
+            return (tuple(arrs), tuple('abc'[:nargs]), 'caller'), dict(dim=dim)
 
         def same(c, ndim=ndim, dim=dim):
-            sa, sb = c.ghost['shapes']
+            shapes = c.ghost['shapes']
             ds = range(ndim) if dim is None else [dim]
-            return z3.And(*[sa[d] == sb[d] for d in ds])
+            return z3.And(*[shapes[0][d] == sq[d] for sq in shapes[1:] for d in ds])
 
         def poste(c, a, kw, r, same=same):
             c.oblige('post:accepted-only-if-compared-extents-agree', same(c), 'post')
 
         def exce(c, a, kw, ex, same=same):
             c.oblige('exc:rejected-only-if-some-compared-extent-differs', z3.Not(same(c)), 'post')
-        u = Unit('ensure_equal_dims[ndim=%d,dim=%s]' % (ndim, dim), 'emd/support.py', 'ensure_equal_dims', mke, poste, module=SP, raises={ValueError: exce},
-                 observables=[{'kind': 'scalar', 'name': nm} for nm in ('a0', 'a1', 'b0', 'b1')])
+        u = Unit('ensure_equal_dims[%sndim=%d,dim=%s]' % ('' if nargs == 2 else '%d arrays,' % nargs, ndim, dim), 'emd/support.py', 'ensure_equal_dims', mke, poste, module=SP, raises={ValueError: exce},
+                 observables=[{'kind': 'scalar', 'name': nm} for nm in ('a0', 'a1', 'b0', 'b1', 'c0', 'c1')])
         u.frame = True
         U.append(u)
 
@@ -459,6 +459,13 @@ def _multi_array_cases():
         ('hilberthuang_1d', lambda: SP.hilberthuang_1d(IF, IA, edges), lambda: (_ for _ in ()).throw(ValueError('n/a'))),
         ('hilberthuang[vector]', lambda: SP.hilberthuang(IF[:, 0], IA[:, 0], edges), lambda: SP.hilberthuang(IF[:, 0], IA[:-1, 0], edges)),
         ('holospectrum', lambda: SP.holospectrum(IF, IF[:, :, None] / 4, IA[:, :, None], edges, edges), lambda: SP.holospectrum(IF, (IF[:, :, None] / 4)[:-2], IA[:, :, None], edges, edges)),
+        # three arrays, exactly one of them out of step (each position in turn)
+        ('holospectrum[last array short]', lambda: SP.holospectrum(IF, IF[:, :, None] / 4, IA[:, :, None], edges, edges), lambda: SP.holospectrum(IF, IF[:, :, None] / 4, (IA[:, :, None])[:-2], edges, edges)),
+        ('holospectrum[first array short]', lambda: SP.holospectrum(IF, IF[:, :, None] / 4, IA[:, :, None], edges, edges), lambda: SP.holospectrum(IF[:-2], IF[:, :, None] / 4, IA[:, :, None], edges, edges)),
+        ('bin_by_phase[weights short]', lambda: CY.bin_by_phase(IP[:, 0], IF[:, 0], weights=IA[:, 0]), lambda: CY.bin_by_phase(IP[:, 0], IF[:, 0], weights=IA[:-4, 0])),
+        ('bin_by_phase[values short, weights given]', lambda: CY.bin_by_phase(IP[:, 0], IF[:, 0], weights=IA[:, 0]), lambda: CY.bin_by_phase(IP[:, 0], IF[:-4, 0], weights=IA[:, 0])),
+        ('ensure_equal_dims[3 arrays, last differs]', lambda: emd.support.ensure_equal_dims((IF[:, 0], IA[:, 0], IP[:, 0]), ('a', 'b', 'c'), 'caller'), lambda: emd.support.ensure_equal_dims((IF[:, 0], IA[:, 0], IP[:-1, 0]), ('a', 'b', 'c'), 'caller')),
+        ('ensure_equal_dims[3 arrays, middle differs]', lambda: emd.support.ensure_equal_dims((IF[:, 0], IA[:, 0], IP[:, 0]), ('a', 'b', 'c'), 'caller', dim=0), lambda: emd.support.ensure_equal_dims((IF[:, 0], IA[:-1, 0], IP[:, 0]), ('a', 'b', 'c'), 'caller', dim=0)),
         ('phase_align', lambda: CY.phase_align(IP[:, 0], IF[:, 0]), lambda: CY.phase_align(IP[:, 0], IF[:-5, 0])),
         ('bin_by_phase', lambda: CY.bin_by_phase(IP[:, 0], IF[:, 0]), lambda: CY.bin_by_phase(IP[:, 0], IF[:-5, 0])),
         ('get_cycle_vector[mask]', lambda: CY.get_cycle_vector(IP[:, 0], mask=np.ones(n, dtype=bool)), lambda: CY.get_cycle_vector(IP[:, 0], mask=np.ones(n - 4, dtype=bool))),
@@ -499,7 +506,7 @@ def refute(tier, seed, emit):
                     cl = {'layouts': 'layout-insensitive', 'frame': 'inputs-never-modified', 'determinism': 'deterministic', 'rejects': 'multi-column-input-rejected'}[what]
                     emit.violation('%s:%s' % (cl, name.split('[')[0]), w, msg)
         # 3. multi-array routines: mismatched lengths rejected
-        emit.scope('multi-array routines (hilberthuang, holospectrum, phase_align, bin_by_phase, get_cycle_vector with mask, get_cycle_stat): equal lengths accepted, mismatched lengths rejected with ValueError; inputs unchanged')
+        emit.scope('multi-array routines (hilberthuang, holospectrum, phase_align, bin_by_phase with and without weights, get_cycle_vector with mask, get_cycle_stat, ensure_equal_dims on three arrays): equal lengths accepted, mismatched lengths rejected with ValueError - for three arrays with each single array out of step in turn; inputs unchanged')
         for name, good, bad in _multi_array_cases():
             emit.case((name, 'lengths'), contract=name)
             w = {'kind': 'routine_len', 'name': name}
